@@ -425,9 +425,29 @@ def r6_purity(ctx):
                     problems.append(f"reads module-level mutable `{n.id}`")
         if glob_reads:
             problems.append(f"reads {sorted(set(glob_reads))[:3]}")
+        caching = [d for d in f.decorators if any(t in d for t in ("lru_cache", "functools.cache", "cached", "memoize")) or d == "cache"]
+        if caching:
+            problems.append(f"is memoised ({caching[0]}): a second cache that State.__setitem__ does not invalidate (tensors hash by identity)")
         ctx.check(not problems, "C01.R6", f, node, f"pure ({f.kind}) - used by e.g. {cfgname}:{varname}",
                   f"definition of derived variable `{varname}` ({cfgname}) " + "; ".join(problems), construct=f"def {node.name}")
     ctx.extra["configurations"] = ctx.extra.get("configurations", 0)
+    # transitive callees of the definitions: no random draw, no surviving global write
+    from ..effects import global_writes, rng_draws
+    from ._shared import callgraph
+    cg = callgraph(ctx)
+    roots = [ctx.ix.funcs[k] for k in seen if k in ctx.ix.funcs]
+    reach = cg.reach(roots)
+    ctx.rule("C01.R6b", "nothing reachable from a derived-variable definition draws random numbers or writes process-wide state", 1)
+    bad = 0
+    for k in reach:
+        g = ctx.ix.funcs[k]
+        for fam, node, txt in rng_draws(ctx.ix, g):
+            bad += 1
+            ctx.violation("C01.R6b", g, node, f"`{txt}` is reachable from the definition of a derived variable ({' -> '.join(cg.path_to(reach, k)[-4:])}): re-evaluating it gives another value, so cached and recomputed values differ")
+        for node, desc in global_writes(ctx.ix, g):
+            bad += 1
+            ctx.violation("C01.R6b", g, node, f"{desc} is reachable from the definition of a derived variable ({' -> '.join(cg.path_to(reach, k)[-4:])})")
+    ctx.ok("C01.R6b", (STATE, "<derived variables>"), None, f"{len(reach)} functions reachable from {len(roots)} definitions: no draw, no global write", construct="effects of definitions")
 
 
 def rules(ctx):
@@ -455,6 +475,9 @@ VARIANTS = [
     V("clone-alias", S, "cloned._values = copy.deepcopy(self._values)", "cloned._values = self._values", "C01.R5"),
     V("foreign-writer", "src/leaspy/models/mcmc_saem_compatible.py", "        state[\"t\"] = None\n", "        state._values[\"t\"] = None\n", "C01.R1"),
     V("cache-get-default", S, "        return self._values[name]\n", "        return self._values.get(name, 0.0)\n", "C01.R3"),
+    V("memoised-definition", "src/leaspy/models/logistic.py", "    @staticmethod\n    def metric(*, g: torch.Tensor) -> torch.Tensor:", "    @staticmethod\n    @functools.lru_cache(maxsize=8)\n    def metric(*, g: torch.Tensor) -> torch.Tensor:", "C01.R6"),
+    V("definition-draws", "src/leaspy/models/time_reparametrized.py", "        return alpha * (t - tau)\n", "        return alpha * (t - tau) + 1e-9 * torch.randn(())\n", "C01.R6"),
+    V("callee-draws", "src/leaspy/utils/weighted_tensor/_utils.py", "    dim = _get_dim(x, dim=dim, but_dim=but_dim)\n    if isinstance(x, WeightedTensor):\n        return x.sum(fill_value=fill_value, dim=dim, **kws)", "    dim = _get_dim(x, dim=dim, but_dim=but_dim)\n    _ = torch.rand(())\n    if isinstance(x, WeightedTensor):\n        return x.sum(fill_value=fill_value, dim=dim, **kws)", "C01.R6"),
     # silent variants
     V("silent-rename-temp", S, "sorted_children = self.dag.sorted_children[name]", "kids = self.dag.sorted_children[name]\n        sorted_children = kids", None),
     V("silent-dict-copy-clone", S, "cloned._values = copy.deepcopy(self._values)", "cloned._values = {k: v for k, v in self._values.items()}", None),
